@@ -135,3 +135,15 @@ static inline int post_verif_isclose_fv(fv_t a, fv_t b, float eps, int ret)
 #define C18_LEN_IGNORED_SV_ARR3(a, b) (SV_LEN(a) != 3UL && prefix3_eq_sv_arr3(a, b))
 /* detail::isclose, ndarray branch: shapes differ; b is addressed modulo its length (traps when b is empty) */
 #define C18_SHAPE_IGNORED_FV(a, b, eps) (SV_LEN(a) != SV_LEN(b) && (SV_LEN(b) == 0UL || scan_first_far_fv(a, b, eps) == CAP))
+
+/* ---- either<int,long> operands: the held alternative is compared with the other operand; two eithers are equal iff they hold the
+ *      same alternative with equal values */
+static inline int pre_verif_isequal_either_num(_Bool a_right, int al, long ar, long b) { return 1; }
+static inline int post_verif_isequal_either_num(_Bool a_right, int al, long ar, long b, _Bool ret)
+{ return (ret != 0) == ((a_right ? ar : (long)al) == b); }
+static inline int pre_verif_isequal_num_either(long a, _Bool b_right, int bl, long br) { return 1; }
+static inline int post_verif_isequal_num_either(long a, _Bool b_right, int bl, long br, _Bool ret)
+{ return (ret != 0) == (a == (b_right ? br : (long)bl)); }
+static inline int pre_verif_isequal_either_either(_Bool a_right, int al, long ar, _Bool b_right, int bl, long br) { return 1; }
+static inline int post_verif_isequal_either_either(_Bool a_right, int al, long ar, _Bool b_right, int bl, long br, _Bool ret)
+{ return (ret != 0) == ((a_right != 0) == (b_right != 0) && (a_right ? ar == br : al == bl)); }
